@@ -242,9 +242,9 @@ func c02Keywords(pkgdir string) []string {
 func c02PkgDir(typ string) string {
 	switch typ {
 	case "uint8blk", "uint16blk", "uint32blk", "uint64blk", "float32blk", "rgba8blk":
-		return "/repo/datatype/imageblk"
+		return c02Repo() + "/datatype/imageblk"
 	}
-	return "/repo/datatype/" + typ
+	return c02Repo() + "/datatype/" + typ
 }
 
 type c02Finding struct {
@@ -530,3 +530,11 @@ func runC02(c *vlib.Ctx) {
 }
 
 var _ = dvid.UUID("")
+
+// c02Repo is the source tree the harness was built against (VERIF_REPO is only set by bin/try_patch.sh).
+func c02Repo() string {
+	if r := os.Getenv("VERIF_REPO"); r != "" {
+		return r
+	}
+	return "/repo"
+}
